@@ -177,6 +177,58 @@ fn is_ancestor(ms: &ModelSnap, anc: usize, mut n: usize) -> bool {
     false
 }
 
+/// for every container (keyed by the chain of names / element names from the root) the identifiable children in order
+fn ident_children_by_container(ms: &ModelSnap) -> HashMap<String, Vec<(String, String)>> {
+    let mut keys: Vec<String> = vec![String::new(); ms.nodes.len()];
+    let mut out: HashMap<String, Vec<(String, String)>> = HashMap::new();
+    for (i, n) in ms.nodes.iter().enumerate() {
+        let own = match &n.item_name {
+            Some(name) if n.identifiable => format!("{}:{}", n.name.to_str(), name),
+            _ => n.name.to_str().to_string(),
+        };
+        keys[i] = match n.parent {
+            Some(p) => format!("{}/{}", keys[p], own),
+            None => own,
+        };
+        if let (Some(p), true, Some(name)) = (n.parent, n.identifiable, &n.item_name) {
+            out.entry(keys[p].clone()).or_default().push((n.name.to_str().to_string(), name.clone()));
+        }
+    }
+    out
+}
+
+/// does the document list, below some element that the model has too, two identifiable children of DIFFERENT kinds which
+/// the model also has there, in the opposite order? (the situation in which the merge of load_buffer imports an element
+/// whose path the model already has: it walks both child lists in parallel and, on different kinds, only compares their
+/// positions in the specification)
+fn load_reorders_kinds(ms: &ModelSnap, op: &Op) -> bool {
+    // (a probe of the harness: a panic of the loader on this document is the business of the call itself, not of the probe)
+    let buf = op.buffer();
+    let loaded = std::panic::catch_unwind(std::panic::AssertUnwindSafe(|| {
+        let doc = autosar_data::AutosarModel::new();
+        doc.load_buffer(&buf, "probe.arxml", false).ok().map(|_| doc)
+    }));
+    let Ok(Some(doc)) = loaded else { return false };
+    let ds = crate::obs::snapshot(&doc);
+    let a = ident_children_by_container(ms);
+    let b = ident_children_by_container(&ds);
+    for (key, la) in &a {
+        let Some(lb) = b.get(key) else { continue };
+        let common: Vec<&(String, String)> = la.iter().filter(|x| lb.contains(x)).collect();
+        for (i, x) in common.iter().enumerate() {
+            for y in &common[i + 1..] {
+                if x.0 != y.0 {
+                    let (px, py) = (lb.iter().position(|z| z == *x), lb.iter().position(|z| z == *y));
+                    if px > py {
+                        return true;
+                    }
+                }
+            }
+        }
+    }
+    false
+}
+
 /// context of an operation's operands: where they are relative to each other and to the known models.
 /// `detached_by` tells which kind of operation took a stale handle out of the tree.
 pub fn relation(view: &View, world: &World, op: &Op, detached_by: &HashMap<H, K>) -> String {
@@ -222,6 +274,11 @@ pub fn relation(view: &View, world: &World, op: &Op, detached_by: &HashMap<H, K>
                 let ms = &view.models[mi].1;
                 if !ms.files.is_empty() && ms.nodes[0].local.len() != ms.files.len() {
                     r.push_str(",root-restricted");
+                }
+                if op.k == K::MLoadBuffer || (op.k == K::MLoadFile && op.n & 1 == 0) {
+                    if !ms.files.is_empty() && load_reorders_kinds(ms, op) {
+                        r.push_str(",reordered-kinds");
+                    }
                 }
             }
             return r;
